@@ -22,7 +22,7 @@ class C04(PoolScenario):
     profiles = ["checkpoint-replica"]
     budgets = {"quick": 10000, "thorough": 200000}
     wall_caps = {"quick": 110, "thorough": 1500}
-    ops = {"new": 1, "fill": 8, "add": 3, "mul": 1.5, "copy": 1, "checkpoint": 4, "pair_op": 7, "torn": 0.5}
+    ops = {"new": 1, "fill": 8, "add": 3, "mul": 1.5, "copy": 1, "checkpoint": 4, "pair_op": 7, "torn": 0.5, "underflow": 0.4}
     rule = ("one run = a pool history of fills, +, * and copy on trees that place every primitive in every child / "
             "flow slot (named and unnamed quantities, NaN / +-inf contents, negative sparse indices, sparse containers "
             "that are still empty); at seeded points an object is checkpointed through a JSON string, a plain dict or a "
@@ -33,7 +33,7 @@ class C04(PoolScenario):
                    "(the document stores variance, the object variance*entries)",
                    "torn / short file contents must make fromJsonFile raise (it is json's parser that notices)"]
     expected_faults = ["restore", "torn_write", "short_read"]
-    expected_probes = ["empty_sparse_checkpoint", "nonfinite_in_document", "negative_sparse_index", "lockstep_ops", "replica_merged_then_reloaded"]
+    expected_probes = ["empty_sparse_checkpoint", "nonfinite_in_document", "negative_sparse_index", "lockstep_ops", "replica_merged_then_reloaded", "underflow_state_checkpointed"]
     spec_opts = {"p_default": 0.3}
     record_opts = {"no_none": False, "numeric_cuts": False, "big_ints": 0.02}
 
@@ -73,13 +73,19 @@ class C04(PoolScenario):
             h = s.pick(ab.handles())
             st.update(obj=h, how=s.pick(["torn", "short"]), frac=s.pick([0.0, 0.3, 0.5, 0.8, 0.97]))
             return [st]
+        if op == "underflow":
+            # scaled until the weights underflow to 0.0 and checkpointed at once: whatever the numbers of such a state mean, a
+            # reload must not drop or add bins, keys or children
+            h = s.pick(ab.handles())
+            st.update(obj=h, fs=s.pick([[1e-200, 1e-200], [5e-324, 0.5]]), wire=s.pick(["json", "jsonstr", "file"]))
+            return [st]
         return super().gen_special(op, st, s, ab, specs, recs)
 
     # ------------------------------------------------------------------
     def _culprit(self, d, default):
         return d[1] if d else default
 
-    def _checkpoint(self, w, st, si, obj, wire, tag, cover=None, k=0):
+    def _checkpoint(self, w, st, si, obj, wire, tag, cover=None, k=0, structure_only=False):
         """serialise, check strictness / fixpoint / equality, return the replica.  When the (record, weight) multiset the
         object represents is known, the document is also compared with the reference model's document, which carries
         the quantity names every node must serialise (name, values:name, bins:name, sub:name)."""
@@ -131,6 +137,20 @@ class C04(PoolScenario):
             raise self.violation(exc_site(o3.exc)[0], "toJson", "exception:%s" % type(o3.exc).__name__,
                                  "toJson of the reloaded container raised %s" % o3.describe(), si, {"doc": ndoc})
         rdoc = observe.normalise(o3.value)
+        if structure_only:
+            def skeleton(x):
+                if isinstance(x, dict):
+                    return {k_: skeleton(v_) for k_, v_ in x.items()}
+                if isinstance(x, list):
+                    return [skeleton(v_) for v_ in x]
+                return "#" if grammar.is_num(x) else x
+
+            if skeleton(rdoc) != skeleton(ndoc):
+                d = observe.doc_diff(skeleton(ndoc), skeleton(rdoc)) or ([], obj.name, "?")
+                raise self.violation(d[1], "fromJson", "fixpoint-structure:%s" % d[2],
+                                     "the reload of an underflow-scaled state has another structure than its document at %s" % (d[0],), si,
+                                     {"doc": ndoc, "again": rdoc})
+            return r.value
         if rdoc != ndoc:
             d = observe.doc_diff(ndoc, rdoc)
             raise self.violation(self._culprit(d, obj.name), "fromJson", "fixpoint:%s" % (d[2] if d else "?"),
@@ -174,6 +194,21 @@ class C04(PoolScenario):
             w.put(st["out"], rep, k=src["k"], via="ship:" + st["wire"], mut=False, twin=st["obj"],
                   twin_version=src.get("fills", 0), cover=None if src.get("cover") is None else list(src["cover"]))
             w.meta[st["obj"]]["fills_at_ckpt"] = w.meta[st["obj"]].get("fills", 0)
+            return "done", set()
+        if op == "underflow":
+            if not w.has(st["obj"]):
+                return None, set()
+
+            def scaled(x=w.heap[st["obj"]]):
+                for f_ in st["fs"]:
+                    x = x * f_
+                return x
+
+            o = call(scaled)
+            if not o.ok:
+                return None, set()
+            w.bump("probe_underflow_state_checkpointed")
+            self._checkpoint(w, st, si, o.value, st["wire"], "u", None, 0, structure_only=True)
             return "done", set()
         if op == "torn":
             import histogrammar as hg
